@@ -32,6 +32,34 @@ Theorem C20_cache_hit_sound : forall d g c fs r,
 Proof. exact cache_hit_sound. Qed.
 Print Assumptions C20_cache_hit_sound.
 
+(* The caches of read_mapper (aligner index, junction BED, alignments): a stored file is reused exactly when the entry under
+   this key names it, the input and the stored file exist with the recorded modification times, and (index) the recorded
+   k-mer size is the one the data type asks for; for the alignment cache the index and the annotation used must carry the
+   recorded times as well. *)
+Theorem C20_index_hit_sound : forall d ref kmer fs r,
+  find_stored_index d ref kmer fs = Some r <->
+  exists e sr si, aget d ref = Some e /\ i_index e = Some r /\
+                  fs ref = Some sr /\ i_ref_mtime e = Some (f_mtime sr) /\
+                  fs r = Some si /\ i_index_mtime e = Some (f_mtime si) /\ i_kmer e = Some kmer.
+Proof. exact index_hit_sound. Qed.
+Print Assumptions C20_index_hit_sound.
+Theorem C20_bed_hit_sound : forall d db fs r,
+  find_stored_bed d db fs = Some r <->
+  exists e sd sb, aget d db = Some e /\ b_bed e = Some r /\
+                  fs db = Some sd /\ b_ref_mtime e = Some (f_mtime sd) /\
+                  fs r = Some sb /\ b_bed_mtime e = Some (f_mtime sb).
+Proof. exact bed_hit_sound. Qed.
+Print Assumptions C20_bed_hit_sound.
+Theorem C20_alignment_hit_sound : forall d key fastq index ann fs r,
+  find_stored_alignment d key fastq index ann fs = Ok (Some r) ->
+  exists e si sf sb, aget d key = Some e /\ a_bam e = Some r /\
+                     fs index = Some si /\ a_index_mtime e = Some (f_mtime si) /\
+                     (forall ap, ann = Some ap -> exists sa, fs ap = Some sa /\ a_ann_mtime e = Some (f_mtime sa)) /\
+                     fs fastq = Some sf /\ a_fastq_mtime e = Some (f_mtime sf) /\
+                     fs r = Some sb /\ a_bam_mtime e = Some (f_mtime sb).
+Proof. exact alignment_hit_sound. Qed.
+Print Assumptions C20_alignment_hit_sound.
+
 (* Both protocols, any programs that record an entry only after converting, any n, any schedule: a process that ends
    normally with database r finds in r the conversion of the annotation its input path held at the start, built with its
    own completeness flag.  Hypotheses (init_ok): pairwise different output paths that hold nothing yet and are nobody's
@@ -90,6 +118,16 @@ Example C20_hypotheses_satisfiable :
   start_ok (mkworld sh_fresh (two true 120 120)) /\ start_ok (mkworld sh_existing (two true 120 120)).
 Proof. split; [exact start_ok_fresh_home|exact start_ok_used_home]. Qed.
 Print Assumptions C20_hypotheses_satisfiable.
+
+(* ---- the configuration directory: makedirs(exist_ok=True) never fails, for any number of runs and any schedule;
+        check-then-create is refuted by two runs *)
+Theorem C20_mkdir_idempotent_never_fails : forall sched dir ps,
+  Forall dok ps -> Forall (fun p => d_failed p = false) (snd (drun dir ps sched)).
+Proof. exact mkdir_idempotent_never_fails. Qed.
+Print Assumptions C20_mkdir_idempotent_never_fails.
+Example C20_check_then_create_refuted :
+  map d_failed (snd (drun false [dp (prog_mkdir false) false; dp (prog_mkdir false) false] [0; 1; 0; 1]%nat)) = [false; true].
+Proof. exact check_then_create_fails. Qed.
 
 (* ---- the db2gtf direction (STAR aligner given a .db): sound once the recorded database path is compared
         (fixes/C20_db2gtf_compare_db_path.diff); the predicate as it stands ignores the path *)
